@@ -29,11 +29,17 @@ class FileSpec:
         self.entry_repeated = False
         self.glob = None
 
-    def render(self, prj_render, version):
+    def render(self, prj_render, version, old_version=None):
         out = []
         for segs, term in self.lines:
             for s in segs:
-                out.append(s.value if s.kind == "text" else prj_render(self.patterns[s.value], version))
+                if s.kind == "text":
+                    out.append(s.value)
+                elif s.kind == "dup":
+                    # a second occurrence of the same pattern on the line: never matched (one match per line), so it keeps the OLD text
+                    out.append(prj_render(self.patterns[s.value], old_version or version))
+                else:
+                    out.append(prj_render(self.patterns[s.value], version))
             out.append(term)
         return "".join(out)
 
@@ -62,7 +68,11 @@ def file_patterns_for(r, vp, k0, legacy=False):
     return pats, k
 
 
-def gen_project(r, impl, legacy=False, max_files=5, allow_mixed=True, n_files=None):
+CFG_PREFIXES = ["", "", "", "[bumpversion]\ncurrent_version = {q}none{q}\n\n", "[tool.other]\nname = {q}x{q}\n\n",
+                "[bumpver_old]\ncurrent_version = {q}n/a{q}\nversion_pattern = {q}MAJOR.MINOR.PATCH{q}\n\n", "[metadata]\nversion = {q}1.0{q}\n\n"]
+
+
+def gen_project(r, impl, legacy=False, max_files=5, allow_mixed=True, n_files=None, allow_dup=False):
     """Returns dict(vp, flags, old, files=[FileSpec], date).  The config file itself is bumpver.toml."""
     vp, flags = r.choice(V1_PATTERNS if legacy else VERSION_PATTERNS)
     d = dt.date(2001, 1, 1) + dt.timedelta(days=r.randrange(0, 30000))
@@ -103,6 +113,8 @@ def gen_project(r, impl, legacy=False, max_files=5, allow_mixed=True, n_files=No
             segs = [Seg("text", r.choice(["", "  ", "prefix ", "// "])), Seg("occ", p)]
             if occs and r.random() < 0.3 and occs[-1] != p:
                 segs += [Seg("text", r.choice([" -- ", " ", "; ", "\t"])), Seg("occ", occs.pop())]
+            if allow_dup and r.random() < 0.35:
+                segs += [Seg("text", r.choice(["  # was: ", " | ", " and again "])), Seg("dup", p)]
             segs.append(Seg("text", r.choice(["", "", " # trailing", " ."])))
             lines.append(segs)
             for _ in range(r.choice([0, 0, 1, 2])):
@@ -115,7 +127,7 @@ def gen_project(r, impl, legacy=False, max_files=5, allow_mixed=True, n_files=No
         if r.random() < 0.15:
             fs.entry_repeated = True
         files.append(fs)
-    return dict(vp=vp, flags=list(flags), old=old, files=files, date=d, legacy=legacy)
+    return dict(vp=vp, flags=list(flags), old=old, files=files, date=d, legacy=legacy, cfg_prefix=r.choice(CFG_PREFIXES))
 
 
 def to_temp_project(project, spec, **kw):
@@ -132,6 +144,7 @@ def to_temp_project(project, spec, **kw):
             files[fs.path] = list(fs.patterns[1:])
         else:
             files[fs.path] = list(fs.patterns)
+    kw.setdefault("cfg_prefix", spec.get("cfg_prefix", "").format(q='"'))
     prj = project.TempProject(version_pattern=spec["vp"], current_version=spec["old"], files=files, **kw)
     return prj
 
@@ -139,7 +152,7 @@ def to_temp_project(project, spec, **kw):
 def write_contents(prj, spec, version=None):
     import os
     for fs in spec["files"]:
-        text = fs.render(prj.render, version or spec["old"])
+        text = fs.render(prj.render, version or spec["old"], spec["old"])
         full = prj.path(fs.path)
         os.makedirs(os.path.dirname(full), exist_ok=True)
         with open(full, "wb") as f:
